@@ -234,6 +234,13 @@ theorem call_sto (st st' : NState) (rnd : Option Nat) (op : NodeOp) (res : OpRes
   | setMaxCommittedSizePerReady x =>
     simp only [applyOp] at h
     cases h; exact .inl SE.rfl
+  | onEntriesFetched to term aggr =>
+    rcases onEntriesFetched_ok h with h | ⟨-, -, -, raft, hx, h⟩
+    · cases h; exact .inl SE.rfl
+    · cases h
+      rcases hx with hx | hx
+      · exact ofR (SE.of_k0 (sendAppendAggressively_k hx K.rfl hinv' hnb')) rfl
+      · exact ofR (SE.of_k0 (sendAppend_k hx K.rfl hinv' hnb')) rfl
 
 end CC
 end Raft
